@@ -247,6 +247,10 @@ def c16_class(ctx, case):
     else:
         p = spectrum.pminvar(_arg(case, x), m, NFFT=case["nfft"], sampling=fs)
     psd = np.asarray(p.psd)
+    # a second estimator object (another dimension, other samples) is created and evaluated before the first one is read
+    if len(x) >= 12:
+        other = spectrum.pminvar(np.random.default_rng(12345).standard_normal(24), 3 if m != 3 else 4)
+        _ = other.psd
     f = np.asarray(list(p.frequencies()), dtype=float)
     real = not np.iscomplexobj(x)
     ctx.cls("class/real" if real else "class/complex", "NFFT arg=%s" % (case["nfft"] if not isinstance(case["nfft"], int) else "int"))
